@@ -68,8 +68,26 @@ def directed(rng: random.Random) -> dict:
                     if rr:
                         ram += [(rr[0] << 16) | (m_["addr_range"][0] + 0x10), (rr[1] << 16) | (m_["addr_range"][0] + 0x1234)]
     body.append({"k": "org", "e": E(g.rom_addr())})
+    since_reloc: int | None = None       # bytes emitted since the last @= (None: the last move was a *=)
+    reloc_to = 0
     for _ in range(rng.randint(3, 12)):
         c = rng.random()
+        since_reloc = None
+        for k_ in range(len(body) - 1, -1, -1):
+            if body[k_]["k"] == "org" or body[k_]["k"] == "map":
+                break
+            if body[k_]["k"] == "reloc":
+                reloc_to = body[k_]["e"][0][2] if body[k_]["e"][0][0] == "num" else 0x7E0000
+                since_reloc = sum(({"db": 1, "dw": 2, "dl": 3}.get(st_.get("d"), 0) * len(st_.get("es", [])) if st_["k"] == "data" else len(st_["t"]) if st_["k"] == "ascii" else 2 if st_["k"] == "ins" else 0)
+                                  for st_ in body[k_ + 1:])
+                break
+        if since_reloc and rng.random() < 0.3 and reloc_to < 0x7E0000 and (reloc_to & 0xFFFF) + since_reloc < 0xFFF0:
+            # *= to exactly the run address behind the last byte of relocated code: a move like any other (the output continues at that
+            # address's own file offset, not behind the stored bytes)
+            body.append({"k": "org", "e": E(reloc_to + since_reloc)})
+            body.append({"k": "data", "d": "db", "es": [E(0xC3), E(0x3C)]})
+            since_reloc = None
+            continue
         if c < 0.3:
             body.append({"k": "org", "e": E(g.rom_addr() if rng.random() < 0.85 else rng.choice(ram))})
         elif c < 0.5:
